@@ -716,3 +716,12 @@ def describe(tier):
                      "per azimuth, mean-curve peak exists); read-only-ness is judged in every state, also when the "
                      "function raises",
                      "the -1/+1 columns of the period row and contour meshes are not pinned by the statement"])
+
+
+_describe_base = describe
+
+
+def describe(tier):     # noqa: F811 - the base description plus what later rounds added to the space
+    d = _describe_base(tier)
+    d["rule"] = d["rule"] + " " + "In every traditional state plot_pre_and_post_rejection is also run on an object whose mean_curve raises once (RuntimeError, KeyboardInterrupt): the object must be unchanged. The meshes handed to Axes.contourf / Axes3D.plot_surface are recorded and judged (for every azimuth of the object a row at that azimuth carrying that azimuth's mean curve); one root stores the azimuths as [90, 0, 45]; one root swaps which window of azimuth 0 is rejected between two drawings of the same live object."
+    return d
